@@ -226,7 +226,20 @@ impl Module for M {
                     ctx.nontrivial(op);
                 }
                 ctx.expect(m1 == m2, &format!("C01:native-vs-default:{}", kind), || format!("R1 {} px, R2 {} px", m1.len(), m2.len()));
-                ctx.expect(m1 == mp, &format!("C01:pixels-vs-draw:{}", kind), || {
+                // rounded rectangles: the C01 face of the known C06 finding gets its own class (see m_rrect.rs)
+                let pd_class = match &shape {
+                    Shape::RRect(rr) if m1 != mp => {
+                        let keys: std::collections::BTreeSet<(i32, i32)> = m1.keys().chain(mp.keys()).copied().collect();
+                        let diff: Vec<Point> = keys.iter().filter(|k| m1.get(*k) != mp.get(*k)).map(|(y, x)| Point::new(*x, *y)).filter(|p| tb.contains(*p)).collect();
+                        if crate::m_rrect::known_finding_explains(rr, style.stroke_width, style.stroke_alignment, &diff) {
+                            format!("C01:pixels-vs-draw:{}:confined-radii", kind)
+                        } else {
+                            format!("C01:pixels-vs-draw:{}", kind)
+                        }
+                    }
+                    _ => format!("C01:pixels-vs-draw:{}", kind),
+                };
+                ctx.expect(m1 == mp, &pd_class, || {
                     let only_draw = m1.iter().filter(|(k, v)| mp.get(k) != Some(v)).count();
                     let only_px = mp.iter().filter(|(k, v)| m1.get(k) != Some(v)).count();
                     format!("draw() {} px, pixels() {} px, {} only/different in draw, {} only/different in pixels", m1.len(), mp.len(), only_draw, only_px)
@@ -319,7 +332,18 @@ impl Module for M {
                 if fab.is_zero_sized() && style.stroke_width > 0 {
                     ctx.count(if fab.size.width == 0 && fab.size.height == 0 { "areas:fill-collapsed-both" } else if fab.size.width == 0 { "areas:fill-collapsed-w" } else { "areas:fill-collapsed-h" });
                 }
-                ctx.expect(bad.is_empty(), &format!("C06:not-fill-stroke-area:{}", kind), || {
+                let fsa_class = match &shape {
+                    Shape::RRect(rr) if !bad.is_empty() => {
+                        let pts: Vec<Point> = bad.iter().map(|b| b.0).collect();
+                        if crate::m_rrect::known_finding_explains(rr, style.stroke_width, style.stroke_alignment, &pts) {
+                            format!("C06:not-fill-stroke-area:{}:confined-radii", kind)
+                        } else {
+                            format!("C06:not-fill-stroke-area:{}", kind)
+                        }
+                    }
+                    _ => format!("C06:not-fill-stroke-area:{}", kind),
+                };
+                ctx.expect(bad.is_empty(), &fsa_class, || {
                     let (pt, got, want) = bad[0];
                     format!("{} point(s) differ, e.g. ({},{}) painted {:?} expected {:?}; fill_area box {} stroke_area box {}", bad.len(), pt.x, pt.y, got, want, fmt_rect(&fab), fmt_rect(&sab))
                 });
